@@ -176,9 +176,9 @@ func init() {
 	b.WriteString("rof\n")
 	hostileFixed = append(hostileFixed, b.String())
 	// a label, then a long run of blank lines, comment lines and colons, then a FOR block: the run is skipped token by token
-	hostileFixed = append(hostileFixed, "lbl\n"+strings.Repeat("\n", 700000)+"i for 2\ndat i\nrof\n")
-	hostileFixed = append(hostileFixed, "lbl\n"+strings.Repeat("; c\n", 300000)+"i for 2\ndat i, lbl\nrof\n")
-	hostileFixed = append(hostileFixed, "lbl"+strings.Repeat(":", 400000)+"\ni for 2\ndat i\nrof\n")
+	hostileFixed = append(hostileFixed, "lbl\n"+strings.Repeat("\n", 1300000)+"i for 2\ndat i\nrof\n")
+	hostileFixed = append(hostileFixed, "lbl\n"+strings.Repeat(";\n", 1000000)+"i for 2\ndat i, lbl\nrof\n")
+	hostileFixed = append(hostileFixed, "lbl"+strings.Repeat(":", 1300000)+"\ni for 2\ndat i\nrof\n")
 	hostileFixed = append(hostileFixed, "dat 0\n"+strings.Repeat("\n", 700000)+"lbl dat 1\n")
 	// one identifier of 256 KiB (the cost of a token is linear in its length)
 	hostileFixed = append(hostileFixed, strings.Repeat("a", 256<<10)+" dat 0\n")
